@@ -11,6 +11,7 @@ import (
 	"os/exec"
 	"path/filepath"
 	"strings"
+	"sync"
 	"time"
 
 	"github.com/go-logr/logr"
@@ -302,22 +303,63 @@ type isoWatchRo struct {
 	Name       string `json:"name"`
 	APIVersion string `json:"apiVersion"`
 	Kind       string `json:"kind"`
+	// Fails[k]: this rollout's k-th own Watch call fails (calls beyond the list succeed). The schedule
+	// belongs to the rollout, not to the shared controller, so that "alone" has a meaning.
+	Fails []bool `json:"fails"`
 }
 
 type isoWatchIn struct {
+	Ctl      string       `json:"ctl"` // rollout | batchrelease: whose Reconcile / watch registry
 	Rollouts []isoWatchRo `json:"rollouts"`
-	Events   []isoEv      `json:"events"`
+	Events   []isoEv      `json:"events"` // call: reconcile | inflight (with nested)
 }
 
-// isoFakeController records the watches the reconciler adds dynamically.
-type isoFakeController struct{ watched []string }
+type isoWatchCall struct {
+	r   int
+	gvk string
+	ok  bool
+}
+
+// isoFakeController stands in for the manager's controller: it records the watches the reconciler adds
+// dynamically, fails them according to the per-rollout schedule, and can hold one call in flight.
+type isoFakeController struct {
+	mu      sync.Mutex
+	cur     int // rollout whose Reconcile the harness is calling
+	ord     map[int]int
+	fails   map[int][]bool
+	calls   []isoWatchCall // in order of completion
+	blockR  int            // the next Watch call of this rollout blocks until released
+	entered chan struct{}
+	release chan struct{}
+}
 
 func (f *isoFakeController) Reconcile(context.Context, reconcile.Request) (reconcile.Result, error) {
 	return reconcile.Result{}, nil
 }
 func (f *isoFakeController) Watch(src source.Source, _ handler.EventHandler, _ ...predicate.Predicate) error {
+	gvk := "?"
 	if k, ok := src.(*source.Kind); ok {
-		f.watched = append(f.watched, k.Type.GetObjectKind().GroupVersionKind().String())
+		gvk = k.Type.GetObjectKind().GroupVersionKind().String()
+	}
+	f.mu.Lock()
+	r := f.cur
+	k := f.ord[r]
+	f.ord[r]++
+	ok := !(k < len(f.fails[r]) && f.fails[r][k])
+	block := f.blockR == r
+	if block {
+		f.blockR = 0
+	}
+	f.mu.Unlock()
+	if block {
+		f.entered <- struct{}{}
+		<-f.release
+	}
+	f.mu.Lock()
+	f.calls = append(f.calls, isoWatchCall{r, gvk, ok})
+	f.mu.Unlock()
+	if !ok {
+		return fmt.Errorf("watch %s failed", gvk)
 	}
 	return nil
 }
@@ -331,6 +373,14 @@ func isoWatchRollout(w isoWatchRo) *v1beta1.Rollout {
 	one := intstr.FromInt(1)
 	ro.Spec.Strategy.Canary = &v1beta1.CanaryStrategy{Steps: []v1beta1.CanaryStep{{Replicas: &one}}}
 	return ro
+}
+
+func isoWatchRelease(w isoWatchRo) *v1beta1.BatchRelease {
+	br := &v1beta1.BatchRelease{}
+	br.Namespace, br.Name, br.UID, br.Generation = w.Ns, w.Name, types.UID(fmt.Sprintf("br-uid-%d", w.R)), 1
+	br.Spec.WorkloadRef = v1beta1.ObjectRef{APIVersion: w.APIVersion, Kind: w.Kind, Name: "wl"}
+	br.Spec.ReleasePlan.Batches = []v1beta1.ReleaseBatch{{CanaryReplicas: intstr.FromInt(1)}}
+	return br
 }
 
 func isoDynamic(all []string) []string {
@@ -357,39 +407,146 @@ func isoDynamic(all []string) []string {
 func isoRunWatch(in *isoWatchIn, only int) J {
 	objs := []client.Object{}
 	for _, w := range in.Rollouts {
-		objs = append(objs, isoWatchRollout(w))
+		if in.Ctl == "batchrelease" {
+			objs = append(objs, isoWatchRelease(w))
+		} else {
+			objs = append(objs, isoWatchRollout(w))
+		}
 	}
 	cli := NewLogClient(fakeClient(objs...))
-	rolloutctl.VerifResetWatched()
-	fc := &isoFakeController{}
-	oc, oh := rolloutctl.VerifSetRuntimeController(fc, nil)
-	defer func() {
-		rolloutctl.VerifSetRuntimeController(oc, oh)
-		rolloutctl.VerifResetWatched()
-	}()
-	rec := rolloutctl.VerifNewReconciler(cli, theScheme)
+	fc := &isoFakeController{ord: map[int]int{}, fails: map[int][]bool{}, entered: make(chan struct{}), release: make(chan struct{})}
 	byR := map[int]isoWatchRo{}
 	for _, w := range in.Rollouts {
 		byR[w.R] = w
+		fc.fails[w.R] = w.Fails
 	}
-	steps := []interface{}{}
-	for _, ev := range in.Events {
-		if ev.T != "op" || (only != 0 && ev.R != only) {
-			continue
+	var reconcileOne func(key types.NamespacedName) error
+	var kinds func() []string
+	if in.Ctl == "batchrelease" {
+		batchrelease.VerifResetWatched()
+		oc, oh := batchrelease.VerifSetRuntimeController(fc, nil)
+		defer func() {
+			batchrelease.VerifSetRuntimeController(oc, oh)
+			batchrelease.VerifResetWatched()
+		}()
+		rec := batchrelease.VerifNewReconciler(cli, theScheme)
+		reconcileOne = func(key types.NamespacedName) error {
+			_, err := rec.Reconcile(context.TODO(), ctrl.Request{NamespacedName: key})
+			return err
 		}
-		w := byR[ev.R]
-		before := len(fc.watched)
-		panicked := false
+		kinds = batchrelease.VerifWatchedKinds
+	} else {
+		rolloutctl.VerifResetWatched()
+		oc, oh := rolloutctl.VerifSetRuntimeController(fc, nil)
+		defer func() {
+			rolloutctl.VerifSetRuntimeController(oc, oh)
+			rolloutctl.VerifResetWatched()
+		}()
+		rec := rolloutctl.VerifNewReconciler(cli, theScheme)
+		reconcileOne = func(key types.NamespacedName) error {
+			_, err := rec.Reconcile(context.TODO(), ctrl.Request{NamespacedName: key})
+			return err
+		}
+		kinds = rolloutctl.VerifWatchedKinds
+	}
+	// run one reconcile (guarded); returns (error returned, panicked)
+	run := func(r int) (bool, bool) {
+		w := byR[r]
+		panicked, failed := false, false
 		func() {
 			defer func() {
 				if recover() != nil {
 					panicked = true
 				}
 			}()
-			_, _ = rec.Reconcile(context.TODO(), ctrl.Request{NamespacedName: types.NamespacedName{Namespace: w.Ns, Name: w.Name}})
+			failed = reconcileOne(types.NamespacedName{Namespace: w.Ns, Name: w.Name}) != nil
 		}()
-		added := append([]string{}, fc.watched[before:]...)
-		steps = append(steps, J{"r": ev.R, "added": added, "registry": isoDynamic(rolloutctl.VerifWatchedKinds()), "panic": panicked})
+		return failed, panicked
+	}
+	attemptsOf := func(r, from int) []interface{} {
+		fc.mu.Lock()
+		defer fc.mu.Unlock()
+		out := []interface{}{}
+		for _, c := range fc.calls[from:] {
+			if c.r == r {
+				out = append(out, []interface{}{c.gvk, c.ok})
+			}
+		}
+		return out
+	}
+	nCalls := func() int {
+		fc.mu.Lock()
+		defer fc.mu.Unlock()
+		return len(fc.calls)
+	}
+	setCur := func(r int) {
+		fc.mu.Lock()
+		fc.cur = r
+		fc.mu.Unlock()
+	}
+	steps := []interface{}{}
+	atomic := func(r int) {
+		from := nCalls()
+		setCur(r)
+		failed, panicked := run(r)
+		steps = append(steps, J{"r": r, "attempts": attemptsOf(r, from), "registry": isoDynamic(kinds()), "err": failed, "panic": panicked, "during": 0})
+	}
+	for _, ev := range in.Events {
+		if ev.T != "op" {
+			continue
+		}
+		if ev.Call != "inflight" {
+			if only == 0 || ev.R == only {
+				atomic(ev.R)
+			}
+			continue
+		}
+		// rollout ev.R reconciles on its own goroutine; its Watch call (if it makes one) stays in flight
+		// while the nested rollouts reconcile
+		nested := []int{}
+		for _, n := range ev.Nested {
+			if only == 0 || n == only {
+				nested = append(nested, n)
+			}
+		}
+		if only != 0 && ev.R != only {
+			for _, n := range nested {
+				atomic(n)
+			}
+			continue
+		}
+		from := nCalls()
+		fc.mu.Lock()
+		fc.cur, fc.blockR = ev.R, ev.R
+		fc.mu.Unlock()
+		type res struct{ failed, panicked bool }
+		done := make(chan res, 1)
+		go func() {
+			f, p := run(ev.R)
+			done <- res{f, p}
+		}()
+		var out res
+		during := 0
+		select {
+		case <-fc.entered:
+			for _, n := range nested {
+				atomic(n)
+				during++
+			}
+			fc.release <- struct{}{}
+			out = <-done
+		case out = <-done:
+			// the reconcile made no Watch call: nothing was in flight
+			fc.mu.Lock()
+			fc.blockR = 0
+			fc.mu.Unlock()
+			steps = append(steps, J{"r": ev.R, "attempts": attemptsOf(ev.R, from), "registry": isoDynamic(kinds()), "err": out.failed, "panic": out.panicked, "during": 0})
+			for _, n := range nested {
+				atomic(n)
+			}
+			continue
+		}
+		steps = append(steps, J{"r": ev.R, "attempts": attemptsOf(ev.R, from), "registry": isoDynamic(kinds()), "err": out.failed, "panic": out.panicked, "during": during})
 	}
 	return J{"steps": steps}
 }
@@ -408,17 +565,30 @@ func isoWatchCase(c *Ctx, in isoWatchIn) {
 }
 
 func genIsoWatch(c *Ctx) isoWatchIn {
-	kinds := [][2]string{{"apps/v1", "Deployment"}, {"apps.kruise.io/v1alpha1", "CloneSet"}, {"apps/v1", "StatefulSet"},
-		{"example.com/v1", "Foo"}, {"example.com/v1", "Bar"}, {"example.com/v2", "Foo"}, {"other.io/v1", "Foo"}}
-	in := isoWatchIn{}
+	kinds := [][2]string{{"apps/v1", "Deployment"}, {"apps.kruise.io/v1alpha1", "CloneSet"},
+		{"example.com/v1", "Foo"}, {"example.com/v1", "Foo"}, {"example.com/v1", "Bar"}, {"example.com/v2", "Foo"}, {"other.io/v1", "Foo"}}
+	in := isoWatchIn{Ctl: []string{"rollout", "batchrelease"}[c.Rng.Intn(2)]}
 	n := 2 + c.Rng.Intn(2)
 	for r := 1; r <= n; r++ {
 		k := kinds[c.Rng.Intn(len(kinds))]
-		in.Rollouts = append(in.Rollouts, isoWatchRo{R: r, Ns: []string{"prod", "stage"}[c.Rng.Intn(2)], Name: fmt.Sprintf("demo-%d", r), APIVersion: k[0], Kind: k[1]})
+		w := isoWatchRo{R: r, Ns: []string{"prod", "stage"}[c.Rng.Intn(2)], Name: fmt.Sprintf("demo-%d", r), APIVersion: k[0], Kind: k[1], Fails: []bool{}}
+		for i, m := 0, c.Rng.Intn(3); i < m; i++ {
+			w.Fails = append(w.Fails, c.Rng.Intn(2) == 0)
+		}
+		in.Rollouts = append(in.Rollouts, w)
 	}
-	total := 3 + c.Rng.Intn(6)
+	total := 3 + c.Rng.Intn(7)
 	for i := 0; i < total; i++ {
-		in.Events = append(in.Events, isoEv{T: "op", R: 1 + c.Rng.Intn(n), Call: "reconcile"})
+		ev := isoEv{T: "op", R: 1 + c.Rng.Intn(n), Call: "reconcile"}
+		if c.Rng.Intn(4) == 0 {
+			ev.Call = "inflight"
+			for j, m := 0, 1+c.Rng.Intn(3); j < m; j++ {
+				if o := 1 + c.Rng.Intn(n); o != ev.R { // the work queue never runs one key on two workers
+					ev.Nested = append(ev.Nested, o)
+				}
+			}
+		}
+		in.Events = append(in.Events, ev)
 	}
 	return in
 }
